@@ -20,13 +20,13 @@ QUICK = ([("P1-single", v, 1) for v in projects.VARIANTS]
          + [("P2-fan", "clean", 1), ("P2-fan", "warn", 1), ("P2-fan", "err", 0), ("P2-fan", "class", 0)]
          + [("P3-diamond", v, 0) for v in projects.VARIANTS]
          + [("P4-chain", "clean", 0), ("P4-chain", "class", 0)]
-         + [("P6-untouched-import", "clean", 1), ("P6-untouched-import", "err", 0), ("P7-untouched-import-fan", "clean", 0)])
+         + [("P6-untouched-import", "clean", 1), ("P6-untouched-import", "err", 0), ("P7-untouched-import-fan", "clean", 0), ("P8-multi-entry-cycle", "clean", 0)])
 THOROUGH = ([("P1-single", v, 3) for v in projects.VARIANTS]
             + [("P2-fan", v, 2) for v in projects.VARIANTS]
             + [("P3-diamond", v, 1 if v == "clean" else 0) for v in projects.VARIANTS]
             + [("P4-chain", v, 1) for v in projects.VARIANTS]
             + [("P5-shared-leaf-3", "clean", 0), ("P5-shared-leaf-3", "class", 0)]
-            + [("P6-untouched-import", v, 2) for v in ("clean", "warn", "err")] + [("P7-untouched-import-fan", v, 1) for v in ("clean", "err")])
+            + [("P6-untouched-import", v, 2) for v in ("clean", "warn", "err")] + [("P7-untouched-import-fan", v, 1) for v in ("clean", "err")] + [("P8-multi-entry-cycle", "clean", 1)])
 
 
 def seq_build():
@@ -63,7 +63,7 @@ def run(chk):
             chk.machinery(f"{tag}: replaying schedule {ex.replay_mismatch[0]} twice gave different traces/observations (nondeterminism outside the scheduler)")
         if ex.capped:
             chk.machinery(f"{tag}: exploration capped")
-        if len(ex.event_orders) < 2 and len(projects.SHAPES[shape]) > 2:
+        if len(ex.event_orders) < 2 and len(projects.SHAPES.get(shape, "xxx")) > 2:
             chk.machinery(f"{tag}: a single event order in {ex.executions} schedules: nothing interleaved")
         # (1) every schedule agrees with the default schedule
         for obs, (n, prefix) in ex.observations.items():
